@@ -119,7 +119,7 @@ func (p *peer) stop() {
 	p.ctl.Kill()
 	p.pw.Close()
 	p.rs.In.Close()
-	p.rs.S.Close()
+	common.WithTimeout(200*time.Millisecond, func() { p.rs.S.Close() })
 }
 
 func (p *peer) feed(s string) { p.feedCh <- []byte(s) }
